@@ -133,7 +133,7 @@ func (ex *Exec) posOf(p token.Pos) string {
 		return ""
 	}
 	pp := ex.w.fset.Position(p)
-	return fmt.Sprintf("%s:%d", strings.TrimPrefix(pp.Filename, "/repo/"), pp.Line)
+	return fmt.Sprintf("%s:%d", strings.TrimPrefix(pp.Filename, repoDir()+"/"), pp.Line)
 }
 
 // execFunc symbolically executes fn and returns its merged results.
@@ -442,6 +442,10 @@ func (fr *frame) execBlock(b *ssa.BasicBlock, st0 *State, reach0 string) {
 				}
 				v := fr.vals[phi]
 				ex.assume(rangeFacts(leaves(v.T), v.L, st.Top))
+				if phi.Comment == "rangeindex" {
+					// compiler-generated index of a range loop: starts at -1 and is only ever incremented
+					ex.assume(app("<=", "(- 1)", v.L[0]))
+				}
 			}
 			for _, inv := range invs {
 				ex.assume(imp(reach, fr.evalClause(inv, b, st, nil)))
